@@ -292,8 +292,7 @@ def r7(ctx):
             ctx.check(ok, "transport-error:%s:fails-task" % name, "a malformed response ends the task with an error", bd.where(g.edge[1]), bad_detail="the TransportResponse::Error arm of %s returns %s" % (name, [expr_str(e)[:40] for _, e in rets]))
 
 
-SRC_EXC = {("run_single_non_read_task", "notify_link_activity", "source"): "a response popped while this task waits is credited to the addressed outstation's keep-alive timer (bookkeeping only; the source test itself is in validate_non_read_response)",
-           }
+SRC_EXC = {}  # (the one former exception, run_single_non_read_task crediting dest.link, was defect F16 and is repaired)
 DST_EXC = {("handle_unsolicited", "confirm_unsolicited", "dest"): "an unsolicited confirm is sent back to whoever sent the unsolicited response"}
 
 
